@@ -72,6 +72,16 @@ CHECKS = {
         "Trusted: numpy tensordot; areas are judged by C05; dyadic-rational data make float64 sums exact.",
         "DESIGN.md section 6, C06",
     ),
+    "C07": (
+        "property-based testing (Hypothesis): round-trip oracle over generated histories of materialisations and encodings (stateful sequences)",
+        "Exploration: histories over a pool of 1-3 grids (mixed sizes, partial/global; built from lon/lat topology arrays, Cartesian face "
+        "vertices, or an MPAS-like source) of 1-8 steps, each materialising one of 16 lazily derived quantities or encoding a grid to ugrid / "
+        "exodus / scrip through to_xarray or encode_as, optionally through a NetCDF file. After every encode the result is re-opened and must "
+        "have the same faces (order kept for UGRID/SCRIP, multiset for Exodus) in standard form; the UGRID topology variable may only name "
+        "variables, coordinates and dimensions that exist; the dataset must be writable to NetCDF and readable again.",
+        "Trusted: the abstract mesh as the expected faces; vlib/sphere.py position equality; xarray/netCDF4 for file I/O.",
+        "DESIGN.md section 6, C07",
+    ),
     "C10": (
         "property-based testing (Hypothesis): generated operation programs run in lock-step against plain xarray (differential oracle) + grid-attachment invariants",
         "Exploration: programs of 1-6 operations drawn from a catalogue of ~60 xarray operations (arithmetic, comparisons, numpy ufuncs, where/clip/"
